@@ -31,7 +31,62 @@ def to_smt2(pc: list, goal) -> str:
     return s.to_smt2()
 
 
+def _z3_cli() -> str | None:
+    import shutil
+    import sys
+
+    for cand in (os.path.join(os.path.dirname(sys.executable), "z3"), shutil.which("z3-new")):
+        if cand and os.path.exists(cand):
+            return cand
+    return None
+
+
+_Z3_BIN = _z3_cli()
+
+
 def _run_z3(smt2: str, timeout_ms: int, seed: int, mbqi: bool = False) -> tuple[str, str, str]:
+    """One z3 query.  The solver does not always honour its soft timeout on these queries
+    (a 15 s budget was observed to become 20 minutes), so the query runs in the z3
+    command-line binary of the same version under its HARD timeout (-T), which ends the
+    process; without a binary the in-process API is used."""
+    if _Z3_BIN is not None:
+        return _run_z3_cli(smt2, timeout_ms, seed, mbqi)
+    return _run_z3_api(smt2, timeout_ms, seed, mbqi)
+
+
+def _run_z3_cli(smt2: str, timeout_ms: int, seed: int, mbqi: bool) -> tuple[str, str, str]:
+    hard_s = int(timeout_ms / 1000) + 5
+    with tempfile.NamedTemporaryFile("w", suffix=".smt2", delete=False) as f:
+        f.write(smt2)
+        if "(check-sat)" not in smt2:
+            f.write("\n(check-sat)\n")
+        f.write("\n(get-info :reason-unknown)\n(get-model)\n")
+        path = f.name
+    try:
+        p = subprocess.run(
+            [_Z3_BIN, f"-T:{hard_s}", f"-t:{timeout_ms}", f"smt.mbqi={'true' if mbqi else 'false'}",
+             f"smt.random_seed={seed}", path],
+            capture_output=True, text=True, timeout=hard_s + 10, check=False,
+        )
+        out = p.stdout.strip().splitlines()
+        first = out[0].strip() if out else ""
+        if first == "unsat":
+            return "unsat", "", ""
+        if first == "sat":
+            model = "\n".join(l for l in out[1:] if not l.startswith("(error") and not l.startswith("(:reason-unknown"))
+            return "sat", model[:4000], ""
+        reason = next((l for l in out if l.startswith("(:reason-unknown")), first or (p.stderr or "")[:200])
+        return "unknown", "", ("timeout" if first == "timeout" else reason)
+    except subprocess.TimeoutExpired:
+        return "unknown", "", "z3 hard timeout"
+    finally:
+        try:
+            os.unlink(path)
+        except OSError:
+            pass
+
+
+def _run_z3_api(smt2: str, timeout_ms: int, seed: int, mbqi: bool = False) -> tuple[str, str, str]:
     s = z3.Solver()
     s.set("timeout", timeout_ms)
     s.set("random_seed", seed)
